@@ -455,3 +455,113 @@ func ruleC10Universe(p *Prog, r *Result) {
 	}
 	r.Floor("C10.universe", "evaluation entry call sites with a document list", n, 1)
 }
+
+// ruleC10ListRef (C10.listref): the list form of a reference, [pattern?, key...]: a leading map or list
+// selects exactly one other document (getCrossDoc over the evaluation's document list) and the remaining
+// entries are the path inside it; without a leading pattern the whole list is a path in the current value.
+func ruleC10ListRef(p *Prog, r *Result) {
+	pr := newPSRule(p, r, "C10.listref", "bkl.getPathFromList", PSOpts{NoInline: map[string]bool{"bkl.getCrossDoc": true, "bkl.getPath": true, "bkl.toStringList": true}})
+	objP, docsP, pathP := mParam("obj"), mParam("docs"), mParam("path")
+	first := mOp("index", pathP, func(t *T) bool { return t.IsConst("0") })
+	rest := func(t *T) bool {
+		return t.Op == "slice" && len(t.Args) >= 2 && pathP(t.Args[0]) && t.Args[1].IsConst("1")
+	}
+	isPattern := func(pa *Path) int {
+		m := guardPol(pa, "kind", first, "map")
+		l := guardPol(pa, "kind", first, "list")
+		if m == 1 || l == 1 {
+			return 1
+		}
+		if (m == -1 && l == -1) || guardPol(pa, "len", pathP, "==0") == 1 {
+			return -1
+		}
+		return 0
+	}
+	cross := mCall("bkl.getCrossDoc", docsP, first)
+	pr.all("a leading map or list entry selects another document", selectPaths(pr.paths, func(pa *Path) bool { return isPattern(pa) == 1 }),
+		"getCrossDoc(docs, path[0]); its error is the result; then getPath(thatDocument.Data, strings of path[1:])", func(pa *Path) (bool, string) {
+			if !hasCallEffect(pa, "bkl.getCrossDoc", docsP, first) {
+				return false, "the pattern is not resolved against the evaluation's document list"
+			}
+			switch guardPol(pa, "err", cross, nil) {
+			case 1:
+				if isFailure(pa) && mResOf(1, cross)(lastResult(pa)) {
+					return true, ""
+				}
+				return false, "a pattern that matches no document, or several, is not an error"
+			case 0:
+				return false, "the result of the document search is used without checking its error"
+			}
+			strs := mCall("bkl.toStringList", rest)
+			if guardPol(pa, "err", strs, nil) == 1 {
+				if isFailure(pa) {
+					return true, ""
+				}
+				return false, "a non-string path entry is accepted"
+			}
+			want := mCall("bkl.getPath", mOp("field", mResOf(0, cross)), mResOf(0, strs))
+			if isSuccess(pa) || isFailure(pa) {
+				if mResOf(0, want)(pa.Results[0]) && mResOf(1, want)(lastResult(pa)) {
+					return true, ""
+				}
+			}
+			return false, "the value is not looked up along path[1:] inside the selected document's data: " + truncate(pa.Results[0].String(), 80)
+		})
+	pr.all("without a leading pattern the whole list is a path in the current value", selectPaths(pr.paths, func(pa *Path) bool { return isPattern(pa) == -1 }),
+		"getPath(obj, strings of path)", func(pa *Path) (bool, string) {
+			if hasCallEffect(pa, "bkl.getCrossDoc") {
+				return false, "another document is consulted although the reference names none"
+			}
+			strs := mCall("bkl.toStringList", pathP)
+			if guardPol(pa, "err", strs, nil) == 1 {
+				if isFailure(pa) {
+					return true, ""
+				}
+				return false, "a non-string path entry is accepted"
+			}
+			want := mCall("bkl.getPath", objP, mResOf(0, strs))
+			if mResOf(0, want)(pa.Results[0]) && mResOf(1, want)(lastResult(pa)) {
+				return true, ""
+			}
+			return false, "the value is not looked up along the whole list inside the current value: " + truncate(pa.Results[0].String(), 80)
+		})
+	pr.allIfAny("every case is decided", selectPaths(pr.paths, func(pa *Path) bool { return isPattern(pa) == 0 }), "no path leaves the kind of path[0] open", func(pa *Path) (bool, string) {
+		return false, "a path does not test whether the first entry is a pattern"
+	})
+	// string form
+	ps := newPSRule(p, r, "C10.listref", "bkl.getPathFromString", PSOpts{NoInline: map[string]bool{"bkl.getPathFromList": true, "bkl.getPath": true}})
+	ps.all("a string reference is a dotted path, or (written as a YAML list) a list reference", selectPaths(ps.paths, isSuccessOrPropagated), "string -> getPath(obj, Split(ref, \".\")); list -> getPathFromList(obj, docs, list)", func(pa *Path) (bool, string) {
+		res := pa.Results[0]
+		if c := res.Find(func(t *T) bool { return t.Op == "call" && t.Name == "bkl.getPath" }); len(c) > 0 {
+			call := c[0]
+			if !objP(call.Args[0]) {
+				return false, "the dotted path is not followed from the current value"
+			}
+			sp := call.Args[1]
+			if !(sp.Op == "call" && sp.Name == "strings.Split" && mStr(".")(sp.Args[1])) {
+				return false, "the reference is not split at dots: " + truncate(sp.String(), 60)
+			}
+			return true, ""
+		}
+		if c := res.Find(func(t *T) bool { return t.Op == "call" && t.Name == "bkl.getPathFromList" }); len(c) > 0 {
+			call := c[0]
+			if !objP(call.Args[0]) || !docsP(call.Args[1]) {
+				return false, "the list reference is not resolved against the current value and the evaluation's documents"
+			}
+			return true, ""
+		}
+		return false, "the reference is resolved by neither getPath nor getPathFromList: " + truncate(res.String(), 60)
+	})
+}
+
+// isSuccessOrPropagated: the path returns what a callee returned (value and error together) or succeeds.
+func isSuccessOrPropagated(pa *Path) bool {
+	if pa.End != "return" || len(pa.Results) == 0 {
+		return false
+	}
+	if isSuccess(pa) {
+		return true
+	}
+	e := lastResult(pa)
+	return e != nil && e.Op == "res"
+}
